@@ -31,3 +31,21 @@ def check_handover_white_only(ctx):
     d = next((l for _, l in pv_leaves(r) if isinstance(l, Draw)), None)
     ok = d is not None and to_x(d.scale) is not None and to_x(d.scale).eq(want)
     (ctx.holds if ok else ctx.violated)("R3-scaling", k2 + "[scale]", "every draw uses scale = rms" if ok else f"draws use scale {getattr(d, 'scale', None)!r}", repo.where(k2, repo.get(k2)))
+    # the single-sample interface draws from the same distribution: every variate generated while serving get_sample has scale rms
+    k3 = f"{NOISE}::white_noise.get_sample"
+    if repo.has(k3):
+        rng = rng_of(o)
+        n0 = len(rng.attrs["draws"].items) if rng is not None else 0
+        st3 = St(); st3.mod = NOISE
+        I.hooks["decide"] = lambda cond: None
+        try:
+            I.call_func(Func(k3, repo.get(k3)), [o], {}, st3, None)
+            new = rng.attrs["draws"].items[n0:] if rng is not None else []
+        except Exception as ex:
+            new = None
+        w3 = repo.where(k3, repo.get(k3))
+        if not new: ctx.unknown("R3-scaling", k3 + "[scale]", "no draw from the owned generator observed while serving get_sample on an empty buffer", w3)
+        else:
+            bad = [d_ for d_ in new if to_x(d_.scale) is None or not to_x(d_.scale).eq(want)]
+            (ctx.violated if bad else ctx.holds)("R3-scaling", k3 + "[scale]", (f"the buffer refill draws variates with scale {bad[0].scale!r} instead of sqrt(psd*fs): samples served one at a time "
+                                                 "have the wrong variance") if bad else "the buffer refill draws with scale = rms", w3)
